@@ -122,6 +122,7 @@ type Frame struct {
 	entry *entrySnap
 	params []Val
 	entryHeld map[string]string
+	fvEntry   map[string]Val // closures under contract: entry values of the captured variables, by name
 	iters  map[ssa.Value]string
 }
 
@@ -159,12 +160,14 @@ type State struct {
 	allocLog map[string]bool   // references allocated (only while summarising a loop)
 	heldPlace map[string]*Place
 	lockSnap  map[string]*State // lock key -> state snapshot right after its acquisition
+	W0        Term               // watermark at function entry
+	lastCall  map[string]callRec // contracted callee (short name) -> arguments/results of its most recent call
 }
 
 func (st *State) top() *Frame { return st.frames[len(st.frames)-1] }
 
 func (st *State) clone() *State {
-	n := &State{W: st.W, steps: st.steps, epoch: st.epoch}
+	n := &State{W: st.W, W0: st.W0, steps: st.steps, epoch: st.epoch}
 	if st.writes != nil {
 		n.writes = make(map[string][]string, len(st.writes))
 		for k, v := range st.writes {
@@ -193,6 +196,12 @@ func (st *State) clone() *State {
 		n.ghost[k] = v
 	}
 	n.trail = append([]string{}, st.trail...)
+	if st.lastCall != nil {
+		n.lastCall = make(map[string]callRec, len(st.lastCall))
+		for k, v := range st.lastCall {
+			n.lastCall[k] = v
+		}
+	}
 	if st.lockSnap != nil {
 		n.lockSnap = make(map[string]*State, len(st.lockSnap))
 		for k, v := range st.lockSnap {
@@ -354,6 +363,22 @@ func (st *State) load(p *Place) Val {
 		}
 		st.assumeRange(out)
 		st.assumeLoadedRefs(out)
+		// a reference read from a heap component that has not changed since function entry
+		// existed at entry: it is below the entry watermark (hence distinct from later allocations)
+		if st.epoch == 0 && !st.W0.IsZero() && p.Kind == PObj && !p.HasArr {
+			ls := layout(t)
+			for k := lo; k < hi; k++ {
+				role := ls[k-lo].Role
+				if role != "ptr" && role != "sl.ref" {
+					continue
+				}
+				cur, ok := st.heap[heapKey("H", p.Root, root[k])]
+				if ok && strings.HasSuffix(cur.S, "@0") {
+					// only for objects that themselves existed at entry (later allocations are revealed, not stored)
+					st.assume(Implies(Le(p.Base, st.W0), Le(out.C[k-lo], st.W0)))
+				}
+			}
+		}
 	}
 	return out
 }
